@@ -743,6 +743,23 @@ def make_model(name, case):
 UNSUPERVISED = ("KMeans", "StandardScaler", "PCA")
 
 
+def _b(x, as_array):
+    if isinstance(x, list):
+        return np.array(x, dtype=float) if as_array else list(x)
+    return x
+
+
+def model_clip_params(name, case):
+    """the clipping parameters of the case (P2) as keyword arguments of set_params"""
+    arr = case.get("reuse", {}).get("array_form", True)
+    if name == "PCA" or name.startswith("LogisticRegression"):
+        return {"data_norm": case["c"]}
+    b = (_b(case["lower"], arr), _b(case["upper"], arr))
+    if name.startswith("LinearRegression"):
+        return {"bounds_X": b, "bounds_y": (_b(case["ylower"], arr), _b(case["yupper"], arr))}
+    return {"bounds": b}
+
+
 def model_outputs(name, m, case):
     probe = np.array(case["probe"], dtype=float) if "probe" in case else None
     if name == "GaussianNB":
@@ -770,10 +787,13 @@ def model_outputs(name, m, case):
 def run_model(name, X, y, case):
     """fit on (X, y) - or, for a sequence case, first on the fixed batch A and then partial_fit / refit / warm-start on (X, y) -
     and return the fitted attributes"""
-    m = make_model(name, case)
+    reuse = case.get("reuse")
+    m = make_model(name, dict(case, **reuse["P1"]) if reuse else case)
     seq = case.get("seq")
+    holder = {"m": m}
 
     def step(how, Xs, ys):
+        m = holder["m"]
         if how == "partial_fit":
             if name == "GaussianNB":
                 m.partial_fit(Xs, ys, classes=case["classes"])
@@ -783,6 +803,23 @@ def run_model(name, X, y, case):
             m.fit(Xs)
         else:
             m.fit(Xs, ys)
+    if reuse:
+        # a RE-USED estimator object: fitted with the clipping parameters P1, then the parameters are changed to P2 (= the
+        # case's own bounds / norm) through the public API, then fitted again: P2 must be what the second fit clips to
+        A = np.array(unjson(case["A"]), dtype=float)
+        yA = np.array(unjson(case["yA"])) if case.get("yA") is not None else None
+        step("fit", A, yA)
+        p2 = model_clip_params(name, case)
+        if reuse["how"] == "set_params":
+            m.set_params(**p2)
+        elif reuse["how"] == "attr":
+            for k, v in p2.items():
+                setattr(m, k, v)
+        else:
+            from sklearn.base import clone
+            holder["m"] = clone(m).set_params(**p2)
+        step(reuse["second"], X, y)
+        return model_outputs(name, holder["m"], case)
     if not seq:
         step("fit", X, y)
         return model_outputs(name, m, case)
@@ -835,6 +872,10 @@ def e2e_case_result(case):
     if v and case.get("dtype") and case["family"] == "tool" and (case.get("axis") is not None or case.get("keepdims")):
         # the per-cell wrapper of the tools allocates its output: a result truncated to the input data type
         return trivial, ("C10:tools:axis-output-dtype", f"[data type {case['dtype']}, axis={case.get('axis')}, keepdims={case.get('keepdims')}] " + v[1])
+    if v and case.get("reuse"):
+        r_ = case["reuse"]
+        sig = v[0] if v[0].endswith("stale-parameters") else v[0] + ":reuse"
+        return trivial, (sig, f"[re-used estimator: fit with {r_['P1']}, {r_['how']} to the bounds/norm below, then {r_['second']}(D)] " + v[1])
     if v and case.get("partial"):
         return trivial, (v[0] + ":partial", f"[only {case['partial']} declared, the other domain parameter derived from the data] " + v[1])
     if v and case.get("declared"):
@@ -888,6 +929,23 @@ def _e2e_case_result(case):
             except Exception as e:  # noqa
                 res.append(("exc", type(e).__name__ + ": " + str(e)[:160]))
         (k1, o1), (k2, o2) = res
+        if case.get("reuse") and case["reuse"]["second"] == "fit" and k1 == "ok":
+            fresh = {k: v for k, v in case.items() if k not in ("reuse", "A", "yA")}
+            try:
+                with warnings.catch_warnings():
+                    warnings.simplefilter("ignore")
+                    o3 = run_model(name, np.ascontiguousarray(D.copy()), None if y is None else y.copy(), fresh)
+                k3 = "ok"
+            except Exception as e:  # noqa
+                k3, o3 = "exc", type(e).__name__ + ": " + str(e)[:160]
+            if k3 != "ok" or not _same(o1, o3):
+                a = np.concatenate([np.asarray(x, dtype=float).ravel() for x in o1])[:4].tolist()
+                b3 = o3 if k3 != "ok" else np.concatenate([np.asarray(x, dtype=float).ravel() for x in o3])[:4].tolist()
+                return False, (f"C10:{name}:stale-parameters",
+                               f"{name} fitted with {case['reuse']['P1']}, then {case['reuse']['how']} to "
+                               f"{ {k: (np.asarray(v).tolist() if not isinstance(v, tuple) else [np.asarray(x).tolist() for x in v]) for k, v in model_clip_params(name, case).items()} }"
+                               f", then fit(D) (seed {case['seed']}) differs from a FRESH estimator constructed with these parameters: "
+                               f"{a} vs {b3}")
     trivial = _eqv(D, Dc) if D.shape == Dc.shape else False
     if case["family"] == "model" and name.startswith("LinearRegression") and trivial:
         trivial = _eqv(y, yc)
@@ -1092,6 +1150,63 @@ def add_seq(r, case):
     return case
 
 
+REUSE_MODELS = ["GaussianNB", "KMeans", "StandardScaler", "LinearRegression", "LinearRegression-nointercept", "LinearRegression-multi",
+                "RandomForestClassifier", "DecisionTreeClassifier", "PCA", "LogisticRegression"]
+
+
+def _other_bounds(r, lo, hi):
+    """P1 relative to P2 = (lo, hi): narrower, wider or shifted; scalar or per-feature form"""
+    L = np.atleast_1d(np.asarray(lo, dtype=float))
+    U = np.atleast_1d(np.asarray(hi, dtype=float))
+    W = U - L
+    k = r.choice(["narrower", "wider", "shifted", "shifted"])
+    if k == "narrower":
+        l1, u1 = L + W * r.uniform(0.1, 0.4), U - W * r.uniform(0.1, 0.4)
+    elif k == "wider":
+        l1, u1 = L - W * r.uniform(0.5, 3.0), U + W * r.uniform(0.5, 3.0)
+    else:
+        sh = W * r.choice([-1.0, 1.0]) * r.uniform(0.5, 3.0)
+        l1, u1 = L + sh, U + sh
+    if isinstance(lo, list) and not r.chance(0.3):
+        return l1.tolist(), u1.tolist()
+    return float(l1.min()), float(u1.max())
+
+
+def add_reuse(r, case):
+    name = case["name"]
+    how = r.choice(["set_params", "attr", "clone"])
+    second = "fit"
+    if name in ("GaussianNB", "StandardScaler") and how != "clone" and r.chance(0.35):
+        second = "partial_fit"
+    P1 = {}
+    nA = r.randint(10, 30)
+    d = len(case["D"][0])
+    if name == "PCA" or name.startswith("LogisticRegression"):
+        P1["c"] = case["c"] * r.choice([0.3, 0.5, 2.0, 4.0])
+        case["A"] = fixed_point_rows(r, nA, d, P1["c"], 0.1)
+        if name != "PCA":
+            yA = [i % 2 for i in range(nA)]
+            r.shuffle(yA)
+            case["yA"] = yA
+    else:
+        P1["lower"], P1["upper"] = _other_bounds(r, case["lower"], case["upper"])
+        case["A"] = gen_data(r, nA, P1["lower"], P1["upper"], d, 0.1).tolist()
+        if "classes" in case:
+            yA = [i % 2 for i in range(nA)]
+            r.shuffle(yA)
+            case["yA"] = yA
+        if name.startswith("LinearRegression"):
+            P1["ylower"], P1["yupper"] = _other_bounds(r, case["ylower"], case["yupper"])
+            t = len(case["y"][0]) if isinstance(case["y"][0], list) else 0
+            if t and not isinstance(P1["ylower"], list):
+                pass
+            YA = gen_data(r, nA, P1["ylower"], P1["yupper"], t, 0.1)
+            case["yA"] = YA.tolist() if t else YA.ravel().tolist()
+    case["reuse"] = {"how": how, "second": second, "P1": P1, "array_form": r.chance(0.6)}
+    case["bkind"] = (case.get("bkind") or "") + "+reuse-" + how + "-" + second
+    return case
+
+
 PARTIAL_MODELS = {"LinearRegression": ["X", "y"], "LinearRegression-nointercept": ["X", "y"], "LinearRegression-multi": ["X", "y"],
                   "LinearRegression-multi-nointercept": ["X", "y"], "RandomForestClassifier": ["bounds"],
                   "DecisionTreeClassifier": ["bounds"]}
@@ -1191,6 +1306,20 @@ FIXED_E2E += [
 ]
 
 
+FIXED_E2E += [
+    # a re-used estimator must clip to (and calibrate with) the bounds it has NOW, not the ones of its first fit
+    {"family": "model", "name": "StandardScaler", "eps": 1.0, "seed": 5, "lower": 0.2, "upper": 0.6, "bkind": "scalar+reuse",
+     "reuse": {"how": "set_params", "second": "fit", "P1": {"lower": 0.0, "upper": 1.0}, "array_form": False},
+     "A": _seq_rows(20, 2, [0.0, 0.0], [1.0, 1.0], []), "D": _seq_rows(24, 2, [0.0, 0.0], [1.0, 1.0], [(0, [5.0, -3.0])]), "probe": [[0.3, 0.3]]},
+    {"family": "model", "name": "StandardScaler", "eps": 1.0, "seed": 5, "lower": [0.2, 0.1], "upper": [0.6, 0.9], "bkind": "perfeature+reuse",
+     "reuse": {"how": "attr", "second": "partial_fit", "P1": {"lower": 0.0, "upper": 1.0}, "array_form": True},
+     "A": _seq_rows(20, 2, [0.0, 0.0], [1.0, 1.0], []), "D": _seq_rows(24, 2, [0.0, 0.0], [1.0, 1.0], [(0, [5.0, -3.0])]), "probe": [[0.3, 0.3]]},
+    {"family": "model", "name": "KMeans", "eps": 5.0, "seed": 0, "k": 2, "lower": 10.0, "upper": 11.0, "bkind": "scalar+reuse",
+     "reuse": {"how": "set_params", "second": "fit", "P1": {"lower": 0.0, "upper": 1.0}, "array_form": False},
+     "A": _seq_rows(40, 2, [0.0, 0.0], [1.0, 1.0], []), "D": _seq_rows(40, 2, [10.0, 10.0], [11.0, 11.0], [(3, [12.5, 9.0])])},
+]
+
+
 def check_e2e(ctx):
     r = ctx.fork("e2e")
     per_tool = ctx.budget(40, 400)
@@ -1217,12 +1346,15 @@ def check_e2e(ctx):
         if name in PARTIAL_MODELS:
             for _ in range(max(2, per_model // 2)):
                 cases.append(add_partial(r, gen_e2e_case(r, name, "model")))
+        if name in REUSE_MODELS:
+            for _ in range(max(3, per_model // 2)):
+                cases.append(add_reuse(r, gen_e2e_case(r, name, "model")))
     for i, case in enumerate(cases):
         trivial, v = e2e_case_result(case)
         if v:
             ctx.violation(v[0], v[1], {"kind": "e2e", "case": case})
         ctx.case(None if trivial else (case["name"], case.get("bkind"), case.get("axis"), case.get("seq"), case["seed"]))
-        ctx.count("e2e:" + case["name"] + ("+dtype" if case.get("dtype") else "") + ("+seq" if case.get("seq") else ""))
+        ctx.count("e2e:" + case["name"] + ("+dtype" if case.get("dtype") else "") + ("+seq" if case.get("seq") else "") + ("+reuse" if case.get("reuse") else ""))
         if not trivial and v is None:
             ctx.trace_ok()
     ctx.sample({"e2e_case": {k: (v if k not in ("D", "y", "probe") else "...") for k, v in cases[10].items()}})
